@@ -104,6 +104,20 @@ func (e *gfP) Unmarshal(in []byte) {
 	}
 }
 
+// isCanonical reports whether the plain (not Montgomery-encoded) value e is a reduced field
+// element, i.e. e < p. Unmarshal reads any 256-bit value; x and x+p would otherwise alias.
+func (e *gfP) isCanonical() bool {
+	for w := 3; w >= 0; w-- {
+		if e[w] < p2[w] {
+			return true
+		}
+		if e[w] > p2[w] {
+			return false
+		}
+	}
+	return false
+}
+
 func montEncode(c, a *gfP) { gfpMul(c, a, r2) }
 func montDecode(c, a *gfP) { gfpMul(c, a, &gfP{1}) }
 
